@@ -111,11 +111,13 @@ pub struct Variant {
     pub gc: Option<GcSpec>,
     pub quarantine: Option<bool>,
     pub optimizer_off: Option<bool>,
+    #[serde(default)]
+    pub delays: Option<Vec<u8>>,
 }
 
 impl Variant {
     pub fn sel(sel: i64) -> Variant {
-        Variant { sel, budgets: vec![], gc: None, quarantine: None, optimizer_off: None }
+        Variant { sel, budgets: vec![], gc: None, quarantine: None, optimizer_off: None, delays: None }
     }
 }
 
